@@ -54,6 +54,7 @@ def generate(R, tier):
         if R.random() < 0.5:
             spec, p, ty = G.rand_wire_pkt(R, flags=fl & 0x17 if fl & 0x17 else 2)
             spec["flags"] = fl
+            spec.pop("link", None)                   # this check wraps the base itself (case field "link")
             if R.random() < 0.08:
                 spec["mf"] = True
                 spec["df"] = R.random() < 0.5
@@ -166,7 +167,8 @@ def impl_init():
 
     def fp(pkt, db):
         try:
-            r = fingerprint_mtu(pkt, options=Options(database=db))
+            with U.options_as(len(bytes(pkt)), database=db) as kw:
+                r = fingerprint_mtu(pkt, **kw)
             return {"ok": [r.packet_signature.mtu, None if r.match is None else r.match.line_number]}
         except PacketError:
             return {"err": "PacketError"}
